@@ -49,9 +49,44 @@ class Renamer(ast.NodeTransformer):
         return node
 
 
+class Commute(ast.NodeTransformer):
+    """a * b -> b * a for every multiplication (numbers and arrays commute; list * int also does)"""
+
+    def visit_BinOp(self, node):
+        self.generic_visit(node)
+        if isinstance(node.op, ast.Mult):
+            node.left, node.right = node.right, node.left
+        return node
+
+
+class Keywordize(ast.NodeTransformer):
+    """f(a, b) -> f(x=a, y=b) for calls of package functions / classes by plain name (positional <-> keyword is behaviour-preserving)"""
+
+    def __init__(self, pkg, module):
+        self.pkg, self.module = pkg, module
+
+    def visit_Call(self, node):
+        self.generic_visit(node)
+        if isinstance(node.func, ast.Name) and node.args and not any(isinstance(a, ast.Starred) for a in node.args):
+            q = self.pkg.resolve_name(self.module, node.func.id)
+            names = None
+            if q in self.pkg.functions and self.pkg.functions[q].cls is None and not self.pkg.functions[q].vararg:
+                names = self.pkg.functions[q].call_params
+            elif q in self.pkg.classes:
+                init = self.pkg.find_method(q, "__init__")
+                names = init.call_params if init and not init.vararg else None
+            if names and len(node.args) <= len(names) and not any(k.arg in names[: len(node.args)] for k in node.keywords if k.arg):
+                node.keywords = [ast.keyword(arg=n, value=a) for n, a in zip(names, node.args)] + node.keywords
+                node.args = []
+        return node
+
+
 def transformed(kind):
     root = pathlib.Path("/repo/verde")
     overlay = {}
+    if kind == "keywordize":
+        from vstat.loader import Package
+        pkg = Package(root)
     for p in root.rglob("*.py"):
         rel = p.relative_to(root)
         if "tests" in rel.parts:
@@ -59,13 +94,20 @@ def transformed(kind):
         tree = ast.parse(p.read_text())
         if kind == "rename":
             tree = ast.fix_missing_locations(Renamer().visit(tree))
+        if kind == "commute":
+            tree = ast.fix_missing_locations(Commute().visit(tree))
+        if kind == "keywordize":
+            parts = list(rel.with_suffix("").parts)
+            if parts[-1] == "__init__":
+                parts = parts[:-1]
+            tree = ast.fix_missing_locations(Keywordize(pkg, pkg.modules[".".join(["verde"] + parts)]).visit(tree))
         overlay[str(rel)] = ast.unparse(tree)
     return overlay
 
 
 def main():
     bad = 0
-    for kind in ("format", "rename"):
+    for kind in ("format", "rename", "commute", "keywordize"):
         overlay = transformed(kind)
         for src in overlay.values():
             compile(src, "<variant>", "exec")
